@@ -208,6 +208,7 @@ class DictReader:
     def _resolve_reference(
         reference: str,
         variables: MutableMapping[str, V],
+        _visited: frozenset[str] = frozenset(),
     ) -> V | None:
         # resolves a single reference
         value: V | None = None
@@ -219,8 +220,11 @@ class DictReader:
 
         reference = re.sub(pattern=r"(^\$|\[.+$)", repl="", string=reference)  # remove leading $ or trailing [
 
+        if reference in _visited:
+            return None  # circular reference
         if reference in variables:
             value = variables[reference]  # singular value or field
+            _visited = _visited | {reference}
 
             ref_changed_through_recursion = False
             while re.search(
@@ -228,7 +232,7 @@ class DictReader:
             ):  # resolve nested references, if existing, through recursion
                 reference = str(value)
                 ref_changed_through_recursion = True
-                value = DictReader._resolve_reference(reference=reference, variables=variables)  # recursion
+                value = DictReader._resolve_reference(reference, variables, _visited)  # recursion
             if ref_changed_through_recursion:
                 reference = re.sub(pattern=r"(^\$|\[.+$)", repl="", string=reference)  # remove leading $ or trailing [
             if indexing:
